@@ -141,6 +141,11 @@ func casterSeqCheck(r *vrt.Result) string {
 	count, poisoned, raw := int64(0), false, int64(0)
 	var hist []string
 	for _, e := range r.Events {
+		if e.Kind == "close-c" {
+			// after close(C) the receive/send semantics of the channel change; only termination
+			// (checked above) is demanded of later calls
+			return ""
+		}
 		switch e.Kind {
 		case "add", "add-panic":
 			d := int64(e.Int(0))
